@@ -9,30 +9,39 @@ ID = 'C05'
 LEAN_MODULES = ['PybtexModel.Props.C05']
 THEOREMS = {
     'C05_expand_spec': 'the cited part of the result = case-insensitive de-duplication (first spelling wins) of the citation list with * replaced in place by all database keys in database order',
-    'C05_crossref_spec': 'the appended part = the uncited parents in the order their reference count over the cited list reaches min_crossrefs; reports = the dangling cross-references of cited entries',
+    'C05_crossref_spec': 'the appended part = the uncited parents in the order their reference count over the cited list reaches min_crossrefs; reports = the dangling cross-references of the entries that go into the bibliography (cited, then appended)',
     'C05_no_dup': 'no two keys of the result are equal up to case',
     'C05_cited_first_in_order': 'explicitly cited keys come first, in first-citation order, de-duplicated; cross-referenced extras only after every cited key',
     'C05_wildcard_db_order': '* stands for every database entry in database order (those not already cited)',
     'C05_threshold': 'an uncited parent is appended iff at least min_crossrefs cited entries reference it, exactly once, in the order the threshold is reached',
     'C05_missing_reported': 'a cited key missing from the database is reported and not kept by both front ends, which never crash',
-    'C05_dangling_reported': 'a dangling cross-reference of a cited entry is reported (bad cross-reference), its target is never added',
+    'C05_dangling_reported': 'a dangling cross-reference of an entry that goes into the bibliography (cited or appended by the threshold) is reported (bad cross-reference), its target is never added',
     'C05_citation_spelling_wins': 'the spelling of a key in the citation list wins over its spelling in the database',
-    'C05_filtered_eq_unfiltered_partial': 'reading restricted to the wanted citations then resolving = reading everything then resolving, up to key case, provided every referenced parent is cited or follows a cited child that references it',
-    'C05_filtered_neg': 'witness: an uncited parent that precedes its only child is lost by the filtered reading (finding #16)',
+    'C05_filtered_eq_unfiltered_partial': 'reading restricted to the wanted citations then resolving gives the same keys (and the same dangling references of cited entries) as reading everything then resolving, up to key case, provided every referenced parent is cited or follows a cited child that references it',
+    'C05_filtered_neg': 'witness: an uncited parent that precedes its only child is lost by the filtered reading (finding C05-filtered-parent-before-child)',
+    'C05_filtered_entries_partial': 'under the strong ordering proviso (the FIRST entry of an uncited parent follows a cited child that references it, and its own cross-reference target is cited, absent or later still) the filtered reading stores the same ENTRY (type, fields, persons) under every resolved key as the unfiltered one and gives the same keys and reports',
+    'C05_filtered_entries_neg': 'witness: a duplicate of an uncited parent before its child: same keys, but the filtered reading stores the later duplicate and reports no repeated entry (finding C05-filtered-duplicate-parent)',
 }
 RULE = ('exhaustive: every file of <=N entries (keys a, B, c in that order; N=2 quick, 3 thorough) x every crossref assignment '
         '{none, each key, each key in the other case, dangling} x every citation list of length <=3 over {a, B, c, A (case variant), '
-        'q (unknown), *} x min_crossrefs 1..3, each observed in both reading modes and through both engine front ends; plus files with '
-        'duplicate keys; plus seeded random larger files.  non-trivial = some entry has a crossref and the citation list is non-empty; '
-        'distinct by case JSON')
+        'q (unknown), *} x min_crossrefs 1..3, each observed in both reading modes (keys, stored entries, reports; add_extra_citations '
+        'called twice on the same object) and through both engine front ends (keys, note of every emitted entry, reports); plus files '
+        'with duplicate keys (also duplicates of uncited parents around their children); values with @ " = # ( ) and braces, also '
+        'whole fake entries, in cited and uncited entries; the same files given as two or three .bib files to one reader / engine run; '
+        'appended parents with cross-references of their own (dangling, before, after); the odd keys * and empty cross-references; '
+        'plus seeded random larger files.  non-trivial = some entry has a crossref and the citation list is non-empty; distinct by case JSON')
 TRUSTED = ['str.lower is ASCII in the model (keys are drawn from ASCII)',
-           'the .bib text generated from a case is parsed by the real reader; C01 is about that reader']
-ASSUMPTIONS = ['keys, field names and values are ASCII without braces/commas/white space in keys',
-               'problems are observed in capture mode (errors.capture), i.e. every report is collected']
+           'the .bib text generated from a case is parsed by the real reader; C01 is about that reader',
+           'the Python engine shows a note through the unsrt misc template: the rendered text is the note without braces plus a final period']
+ASSUMPTIONS = ['keys and field names are ASCII without braces/commas/white space; values are ASCII without backslash and %, braces balanced, '
+               'white space normalised (C01 is about everything else a value can be)',
+               'problems are observed in capture mode (errors.capture), i.e. every report is collected',
+               'the model follows the code with proposed_fixes/C05-2 applied (dangling cross-reference of an appended parent is reported)']
 SERIAL = False
 
 BST = r'''ENTRY { note } {} {}
-FUNCTION {show} { "\bibitem{" cite$ * "}" * write$ newline$ }
+FUNCTION {show} { "\bibitem{" cite$ * "}" * write$ newline$
+  "note=" note missing$ { "<MISSING>" } { note } if$ * write$ newline$ }
 READ
 ITERATE {show}
 '''
@@ -57,44 +66,82 @@ def _plugins(by_name):
             'kw': {'bib_format': Parser, 'label_style': LabelStyle, 'name_style': NameStyle, 'sorting_style': SortingStyle}}
 
 
-def _mode(text, cits, m, wanted, by_name=False):
+def texts(case):
+    """the .bib sources of a case: one, or several when the case says where to `split` the entry list"""
+    file = case['file']
+    cuts = case.get('split')
+    if not cuts:
+        return [dbcommon.bib_text(file)]
+    bounds = [0] + list(cuts) + [len(file)]
+    return [dbcommon.bib_text(file[a:b]) for a, b in zip(bounds, bounds[1:])]
+
+
+def _mode(txts, cits, m, wanted, by_name=False):
+    import io
     from pybtex import errors
     from pybtex.database import parse_string
+    from pybtex.plugin import find_plugin
     try:
         with errors.capture() as errs:
             kw = {'wanted_entries': list(cits)} if wanted else {}
-            bib = parse_string(text, _plugins(by_name)['bib_format'], **kw)
+            if len(txts) == 1:
+                bib = parse_string(txts[0], _plugins(by_name)['bib_format'], **kw)
+            else:
+                # what both engines do: one reader object, parse_files over all the files
+                parser = find_plugin('pybtex.database.input', _plugins(by_name)['bib_format'])(**kw)
+                bib = parser.parse_files([io.StringIO(t) for t in txts])
         read_reports = _canon_errs(errs)
         with errors.capture() as errs:
             expanded = list(bib._expand_wildcard_citations(list(cits)))
         with errors.capture() as errs:
             resolved = list(bib.add_extra_citations(list(cits), m))
+        # the same question put a second time to the same database object
+        with errors.capture() as errs2:
+            resolved2 = list(bib.add_extra_citations(list(cits), m))
         return {'db': list(bib.entries.keys()), 'entry_keys': [e.key for e in bib.entries.values()],
-                'read_reports': read_reports, 'expanded': expanded, 'resolved': resolved, 'reports': _canon_errs(errs)}
+                'contents': [[e.key, e.type, [[n, v] for n, v in e.fields.items()]] for e in bib.entries.values()],
+                'read_reports': read_reports, 'expanded': expanded, 'resolved': resolved, 'reports': _canon_errs(errs),
+                'resolved_again': resolved2, 'reports_again': _canon_errs(errs2)}
     except Exception as e:  # noqa
         return compat.pybtex_error_kind(e)
 
 
-def _bibtex_engine(text, cits, m, by_name=False):
+def _bibtex_engine(txts, cits, m, by_name=False):
     from pybtex import errors
     import pybtex.bibtex
     try:
         with errors.capture() as errs:
-            out = pybtex.bibtex.format_from_string(text, dbcommon.bst_path('c05', BST), citations=list(cits), min_crossrefs=m)
-        return {'keys': [k for k, _ in dbcommon.split_bibitems(out)], 'reports': _canon_errs(errs)}
+            out = pybtex.bibtex.format_from_strings(txts, dbcommon.bst_path('c05', BST), citations=list(cits), min_crossrefs=m)
+        items = dbcommon.split_bibitems(out)
+        notes = []
+        for _k, lines in items:
+            body = '\n'.join(lines)
+            v = body[5:].rstrip('\n') if body.startswith('note=') else 'UNPARSED:' + body
+            notes.append(None if v == '<MISSING>' else v)
+        return {'keys': [k for k, _ in items], 'reports': _canon_errs(errs), 'notes': notes}
     except Exception as e:  # noqa
         return compat.pybtex_error_kind(e)
 
 
-def _python_engine(text, cits, m, by_name=False):
+def py_note(v):
+    """what the unsrt misc template shows of a note: braces are grouping only, a period ends the sentence"""
+    return '' if v is None else v.replace('{', '').replace('}', '')
+
+
+def _python_engine(txts, cits, m, by_name=False):
     from pybtex import errors
     import pybtex
     try:
         pl = _plugins(by_name)
         with errors.capture() as errs:
-            out = pybtex.format_from_string(text, pl['style'], citations=list(cits), min_crossrefs=m,
-                                            output_backend=dbcommon.key_backend(), **pl['kw'])
-        return {'keys': [k for k, _ in dbcommon.split_bibitems(out)], 'reports': _canon_errs(errs)}
+            out = pybtex.format_from_strings(txts, pl['style'], citations=list(cits), min_crossrefs=m,
+                                             output_backend=dbcommon.key_backend(), **pl['kw'])
+        items = dbcommon.split_bibitems(out)
+        notes = []
+        for _k, lines in items:
+            body = '\n'.join(lines).rstrip('\n')
+            notes.append(body[:-1] if body.endswith('.') else body)
+        return {'keys': [k for k, _ in items], 'reports': _canon_errs(errs), 'notes': notes}
     except Exception as e:  # noqa
         return compat.pybtex_error_kind(e)
 
@@ -106,24 +153,41 @@ def _by_name(case):
 
 
 def impl(case):
-    text = dbcommon.bib_text(case['file'])
+    txts = texts(case)
     cits, m = case['citations'], case['min_crossrefs']
     bn = _by_name(case)
-    return {'unfiltered': _mode(text, cits, m, False, bn), 'filtered': _mode(text, cits, m, True, bn),
-            'bibtex': _bibtex_engine(text, cits, m, bn), 'python': _python_engine(text, cits, m, bn)}
+    return {'unfiltered': _mode(txts, cits, m, False, bn), 'filtered': _mode(txts, cits, m, True, bn),
+            'bibtex': _bibtex_engine(txts, cits, m, bn), 'python': _python_engine(txts, cits, m, bn)}
 
 
 def model_out(case, reply):
-    return reply['out']
+    out = reply['out']
+    py = out.get('python')
+    if isinstance(py, dict) and isinstance(py.get('notes'), list):
+        py = dict(py)
+        py['notes'] = [py_note(v) for v in py['notes']]
+        out = dict(out)
+        out['python'] = py
+    return out
 
 
 def valid_case(case):
-    if set(case) != {'op', 'file', 'citations', 'min_crossrefs'} or case['op'] != 'resolve':
+    if not ({'op', 'file', 'citations', 'min_crossrefs'} <= set(case) <= {'op', 'file', 'citations', 'min_crossrefs', 'split'}) or case['op'] != 'resolve':
         return False
-    if not dbcommon.valid_file(case['file']):
+    if not dbcommon.valid_file(case['file'], allow_empty=True, rich_values=True, odd_keys=True):
         return False
+    if any(len(v) > 60 for e in case['file'] for _n, v in e['fields']):   # write$ breaks lines at 79 columns
+        return False
+    if any('note' not in [n.lower() for n, _v in e['fields']] or e['persons'] for e in case['file']):
+        return False   # every entry has a note of its own (an inherited one is C14's subject)
     if not isinstance(case['min_crossrefs'], int) or isinstance(case['min_crossrefs'], bool):
         return False
+    if 'split' in case:
+        cuts = case['split']
+        if not isinstance(cuts, list) or not cuts or any(not isinstance(c, int) or isinstance(c, bool) for c in cuts):
+            return False
+        if list(cuts) != sorted(cuts) or cuts[0] < 0 or cuts[-1] > len(case['file']):
+            return False
     return all(c == '*' or dbcommon.KEY_OK.match(c) for c in case['citations'])
 
 
@@ -147,29 +211,76 @@ def _xref(e):
     return None
 
 
-def explain_filtered(case):
-    """Finding #16 (DESIGN.md section 4): is there a cited entry whose parent is in the file, is not cited,
-    and occurs only before every cited child that references it?  Returns the list of such parents."""
-    cits = case['citations']
-    if '*' in cits:
-        return []
-    low = set(_low(cits))
+def _first(case):
     first = {}
     for i, e in enumerate(case['file']):
         first.setdefault(e['key'].lower(), i)
-    lost = []
-    parents = set()
+    return first
+
+
+def _uncited_parents(case):
+    """{parent key (lower): index of the first effective entry of a cited key that references it}, for the parents that are
+    in the file and are not cited themselves (no wildcard among the citations)"""
+    cits = case['citations']
+    if '*' in cits:
+        return {}
+    low = set(_low(cits))
+    first = _first(case)
+    parents = {}
     for c in low:
         if c in first:
             x = _xref(case['file'][first[c]])
             if x is not None and x.lower() not in low and x.lower() in first:
-                parents.add(x.lower())
-    for x in sorted(parents):
-        children = [i for k, i in first.items() if k in low and (_xref(case['file'][i]) or '').lower() == x]
-        occ = [i for i, e in enumerate(case['file']) if e['key'].lower() == x]
-        if all(o < min(children) for o in occ):
-            lost.append(x)
-    return lost
+                parents[x.lower()] = min(parents.get(x.lower(), len(case['file'])), first[c])
+    return parents
+
+
+def _occurrences(case, k):
+    return [i for i, e in enumerate(case['file']) if e['key'].lower() == k]
+
+
+def explain_filtered(case):
+    """Finding C05-filtered-parent-before-child: is there a cited entry whose parent is in the file, is not cited,
+    and occurs only before every cited child that references it?  Returns the list of such parents."""
+    return sorted(x for x, child in _uncited_parents(case).items() if all(o < child for o in _occurrences(case, x)))
+
+
+def explain_duplicate_parent(case):
+    """Finding C05-filtered-duplicate-parent: an uncited parent with one entry before the first cited child that references it
+    (the one the unfiltered reading keeps) and another one after it (the one the filtered reading stores)."""
+    return sorted(x for x, child in _uncited_parents(case).items()
+                  if any(o < child for o in _occurrences(case, x)) and any(o > child for o in _occurrences(case, x)))
+
+
+def explain_grandparent(case):
+    """Finding C05-filtered-grandparent-before-parent: an uncited parent x (kept by the filtered reading: an entry of it follows
+    a cited child) whose own cross-reference target y is in the file, is not cited, and occurs only before the entry of x
+    that the filtered reading stores.  Returns [(x, y)]."""
+    out = []
+    low = set(_low(case['citations']))
+    for x, child in _uncited_parents(case).items():
+        later = [o for o in _occurrences(case, x) if o > child]
+        if not later:
+            continue
+        y = _xref(case['file'][later[0]])
+        if y is None or y.lower() in low or y.lower() == x:
+            continue
+        occ = _occurrences(case, y.lower())
+        if occ and all(o < later[0] for o in occ):
+            out.append((x, y.lower()))
+    return sorted(out)
+
+
+def _contents(mode):
+    return {k.lower(): [t, f] for k, t, f in mode['contents']}
+
+
+def _repeated(mode):
+    d = {}
+    for r in mode['read_reports']:
+        if r[0] == 'repeated':
+            d.setdefault(r[1].lower(), []).append(r[1])
+    return d
 
 
 def oracle(case, impl_out, reply):
@@ -197,7 +308,13 @@ def oracle(case, impl_out, reply):
         fails.append('no_dup: %r contains two keys equal up to case' % (u['resolved'],))
     dang = [['bad_crossref', c, x] for c, x in spec['dangling']]
     if u['reports'] != dang:
-        fails.append('dangling_reported: reports %r, dangling cross-references of cited entries are %r' % (u['reports'], spec['dangling']))
+        fails.append('dangling_reported: reports %r, dangling cross-references of the entries that go into the bibliography are %r' % (
+            u['reports'], spec['dangling']))
+    # the answer is a function of the database, the citations and min_crossrefs: asking again gives it again
+    for name, mode in (('unfiltered', u), ('filtered', f)):
+        if mode['resolved_again'] != mode['resolved'] or mode['reports_again'] != mode['reports']:
+            fails.append('threshold_again: a second add_extra_citations on the same (%s) database gives %r reports %r, the first gave %r reports %r' % (
+                name, mode['resolved_again'], mode['reports_again'], mode['resolved'], mode['reports']))
     # citation spelling wins (explicit citations before any wildcard keep their first spelling)
     pre = list(itertools.takewhile(lambda c: c != '*', cits))
     seen, firsts = set(), []
@@ -207,56 +324,143 @@ def oracle(case, impl_out, reply):
             firsts.append(c)
     if u['resolved'][:len(firsts)] != firsts:
         fails.append('citation_spelling_wins: result %r does not start with the citations as spelled %r' % (u['resolved'], firsts))
-    # filtered reading = unfiltered reading, up to key case
-    if _low(f['resolved']) != _low(spec['resolved']) or [r[:1] + _low(r[1:]) for r in f['reports']] != [r[:1] + _low(r[1:]) for r in dang]:
+    # filtered reading = unfiltered reading, up to key case: keys and reports ...
+    lost = explain_filtered(case) if not spec['proviso'] else []
+    dup = explain_duplicate_parent(case) if not spec['proviso_strong'] else []
+    grand = explain_grandparent(case) if not spec['proviso_strong'] else []
+    lowrep = lambda rs: [r[:1] + _low(r[1:]) for r in rs]   # noqa: E731
+    keys_ok = _low(f['resolved']) == _low(spec['resolved'])
+    exp_low = set(_low(spec['expanded']))
+    f_cited = [r for r in lowrep(f['reports']) if r[1] in exp_low]
+    f_extra = [r for r in lowrep(f['reports']) if r[1] not in exp_low]
+    d_cited = [r for r in lowrep(dang) if r[1] in exp_low]
+    d_extra = [r for r in lowrep(dang) if r[1] not in exp_low]
+    if not keys_ok or f_cited != d_cited:
         tag = 'filtered_eq_unfiltered' if spec['proviso'] else 'filtered_eq_unfiltered_parent_first'
         fails.append('%s: reading with wanted_entries=citations resolves to %r reports %r; reading everything gives %r reports %r' % (
             tag, f['resolved'], f['reports'], spec['resolved'], dang))
-    # both engine front ends: keys of the \bibitem lines; missing and dangling reported
+    elif f_extra != d_extra:
+        for r in [r for r in f_extra if r not in d_extra] + [r for r in d_extra if r not in f_extra]:
+            fails.append('%s: reading with wanted_entries=citations reports %r for the appended parents; reading everything reports %r [%r]' % (
+                _extra_tag('filtered_eq_unfiltered', 'filtered', r, r in f_extra, spec, dup, grand), f_extra, d_extra, r[1]))
+    # ... and the entries stored under the resolved keys (type and fields; repeated-entry reports about them)
+    fc, uc, fr, ur = _contents(f), _contents(u), _repeated(f), _repeated(u)
+    for k in _low(spec['present']):
+        if (fc.get(k), fr.get(k, [])) != (uc.get(k), ur.get(k, [])):
+            if k in lost:
+                tag = 'filtered_eq_unfiltered_parent_first'
+            elif k in dup:
+                tag = 'filtered_entries_duplicate_parent'
+            else:
+                tag = 'filtered_entries'
+            fails.append('%s: under key %r the reading with wanted_entries=citations stores %r (repeated-entry reports %r); reading everything stores %r (%r)' % (
+                tag, k, fc.get(k), fr.get(k, []), uc.get(k), ur.get(k, [])))
+    for name, mode in (('unfiltered', u), ('filtered', f)):
+        other = [r for r in mode['read_reports'] if r[0] != 'repeated']
+        if other:
+            fails.append('never_crash: the %s reading of a well-formed file reported %r' % (name, other[:2]))
+    # both engine front ends: keys of the \bibitem lines; missing and dangling reported; the entries shown are the right ones
+    want_note = {}
+    for k, fields in spec['contents']:
+        want_note[k.lower()] = dict((n.lower(), v) for n, v in reversed(fields)).get('note')
     for side in ('bibtex', 'python'):
         e = impl_out[side]
         if _low(e['keys']) != _low(spec['present']):
             tag = 'engine_keys' if spec['proviso'] else 'engine_keys_parent_first'
             fails.append('%s: %s engine emits %r, the property demands %r' % (tag, side, e['keys'], spec['present']))
-        elif _consistent(cits):
-            want = [k for k in spec['present'] if k.lower() in seen]
-            got = [k for k in e['keys'] if k.lower() in seen]
-            if want != got:
-                fails.append('citation_spelling_wins: %s engine emits %r for the citations %r' % (side, got, want))
+        else:
+            if _consistent(cits):
+                want = [k for k in spec['present'] if k.lower() in seen]
+                got = [k for k in e['keys'] if k.lower() in seen]
+                if want != got:
+                    fails.append('citation_spelling_wins: %s engine emits %r for the citations %r' % (side, got, want))
+            for k, got in zip(_low(e['keys']), e['notes']):
+                exp = want_note.get(k) if side == 'bibtex' else py_note(want_note.get(k))
+                if got != exp:
+                    tag = 'engine_entries_duplicate_parent' if k in dup else 'engine_entries'
+                    fails.append('%s: %s engine shows the note %r for %r, the entry that counts for that key has %r' % (tag, side, got, k, exp))
         miss = [r[1] for r in e['reports'] if r[0] == 'missing']
         if _low(miss) != _low(spec['missing']) and spec['proviso']:
             fails.append('missing_reported: %s engine reports missing %r, cited keys without an entry are %r' % (side, miss, spec['missing']))
         if any(k.lower() in _low(spec['missing']) for k in e['keys']):
             fails.append('missing_reported: %s engine keeps a key that has no database entry: %r' % (side, e['keys']))
-        bad = [r[1:] for r in e['reports'] if r[0] == 'bad_crossref']
-        if [_low(b) for b in bad] != [_low(d) for d in spec['dangling']] and spec['proviso']:
-            fails.append('dangling_reported: %s engine reports %r, dangling cross-references are %r' % (side, bad, spec['dangling']))
+        bad = [[r[0]] + _low(r[1:]) for r in e['reports'] if r[0] == 'bad_crossref']
+        if bad != lowrep(dang) and spec['proviso']:
+            b_cited, b_extra = [r for r in bad if r[1] in exp_low], [r for r in bad if r[1] not in exp_low]
+            if b_cited != d_cited or sorted(b_extra) == sorted(d_extra):
+                fails.append('dangling_reported: %s engine reports %r, dangling cross-references are %r' % (side, bad, spec['dangling']))
+            else:
+                for r in [r for r in b_extra if r not in d_extra] + [r for r in d_extra if r not in b_extra]:
+                    fails.append('%s: %s engine reports %r, dangling cross-references are %r [%r]' % (
+                        _extra_tag('dangling_reported', 'engine', r, r in b_extra, spec, dup, grand), side, bad, spec['dangling'], r[1]))
         other = [r for r in e['reports'] if r[0] not in ('missing', 'bad_crossref', 'repeated')]
         if other:
             fails.append('never_crash: %s engine reported something else: %r' % (side, other[:2]))
     return fails
 
 
+def _extra_tag(default, where, r, reported, spec, dup, grand):
+    """classify a difference in the reports about an APPENDED parent r[1] between the filtered reading and the reference"""
+    if not spec['proviso_strong']:
+        if r[1] in dup:
+            return where + '_entries_duplicate_parent'      # another entry is stored for that key: its cross-reference differs too
+        if reported and (r[1], r[2]) in grand:
+            return where + '_reports_grandparent_first'
+    return default
+
+
 def _parent_first(case, impl_out, text):
-    """Matcher for finding #16: the failure is one of the filtered-reading clauses, the ordering proviso does
-    not hold, and an uncited parent does precede every cited child that references it."""
+    """Matcher for finding C05-filtered-parent-before-child: the failure is one of the filtered-reading clauses, the ordering
+    proviso does not hold, and an uncited parent does precede every cited child that references it."""
     tag = text.split(':')[0]
     if tag not in ('filtered_eq_unfiltered_parent_first', 'engine_keys_parent_first'):
         return False
     return bool(explain_filtered(case))
 
 
-KNOWN_MATCHERS = {'C05-filtered-parent-before-child': _parent_first}
+def _duplicate_parent(case, impl_out, text):
+    """Matcher for finding C05-filtered-duplicate-parent: the entry stored / shown under the key of an uncited parent differs,
+    and that parent does have one entry before and another after the first cited child that references it."""
+    tag = text.split(':')[0]
+    if tag not in ('filtered_entries_duplicate_parent', 'engine_entries_duplicate_parent'):
+        return False
+    return any(repr(k) in text for k in explain_duplicate_parent(case))
+
+
+def _grandparent_first(case, impl_out, text):
+    """Matcher for finding C05-filtered-grandparent-before-parent: only the reports about appended parents differ, each extra
+    report of the filtered reading is 'x refers to y' for an appended parent x whose parent y occurs only before it."""
+    tag = text.split(':')[0]
+    if tag not in ('filtered_reports_grandparent_first', 'engine_reports_grandparent_first'):
+        return False
+    return bool(explain_grandparent(case))
+
+
+KNOWN_MATCHERS = {'C05-filtered-parent-before-child': _parent_first,
+                  'C05-filtered-duplicate-parent': _duplicate_parent,
+                  'C05-filtered-grandparent-before-parent': _grandparent_first}
 
 
 def buckets(case, impl_out):
     b = ['n=%d' % len(case['file']), 'cits=%d' % len(case['citations']), 'm=%d' % case['min_crossrefs']]
     if '*' in case['citations']:
         b.append('wildcard')
+    if case.get('split'):
+        b.append('files=%d' % (len(case['split']) + 1))
+    if any(not dbcommon.VALUE_OK.match(v) for e in case['file'] for _n, v in e['fields']):
+        b.append('rich_values')
+    if any(not v for e in case['file'] for _n, v in e['fields']):
+        b.append('empty_value')
+    if explain_duplicate_parent(case):
+        b.append('duplicate_parent')
+    if explain_grandparent(case):
+        b.append('grandparent_first')
     u = impl_out.get('unfiltered')
     if isinstance(u, dict):
         if len(u['resolved']) > len(u['expanded']):
             b.append('parent_appended')
+            if any(r[1] in u['resolved'][len(u['expanded']):] for r in u['reports']):
+                b.append('appended_parent_dangling')
         if u['reports']:
             b.append('dangling')
         if u['read_reports']:
@@ -264,6 +468,8 @@ def buckets(case, impl_out):
         f = impl_out.get('filtered')
         if isinstance(f, dict) and _low(f['resolved']) != _low(u['resolved']):
             b.append('filtered_differs')
+        if isinstance(f, dict) and any(_contents(f).get(k) != c for k, c in _contents(u).items() if k in _contents(f)):
+            b.append('filtered_entry_differs')
     for side in ('bibtex', 'python'):
         e = impl_out.get(side)
         if isinstance(e, dict) and any(r[0] == 'missing' for r in e['reports']):
@@ -285,8 +491,8 @@ KEYS = ['a', 'B', 'c']
 OTHER = {'a': 'A', 'B': 'b', 'c': 'C'}
 
 
-def _entry(key, xref, xname='crossref'):
-    fields = [['note', 'n' + key]]
+def _entry(key, xref, xname='crossref', note=None):
+    fields = [['note', ('n' + key) if note is None else note]]
     if xref is not None:
         fields.append([xname, xref])
     return {'key': key, 'type': 'misc', 'fields': fields, 'persons': []}
@@ -349,6 +555,89 @@ def _competing(tier):
     return cases
 
 
+# values a .bib reader must carry through untouched, whether or not the entry is wanted: they look like syntax
+RICH = ['see @misc{c, note={FAKE}} end', 'see @misc(c, note = "FAKE") end', 'mail a@b.c', 'say "hi" there', '{nested {deep}} x', '@',
+        '"', '@string{k = {v}}', '@comment{@misc{c, note={F}}}', 'x = {y}, z # "w"', '{@}', '', '@misc{p, note={FAKEP}}',
+        '@preamble{"P"} @misc{c, crossref={x}, note={F}}']
+
+
+def _rich_values(tier):
+    """entries whose values contain @ " = # ( ) and braces -- up to whole fake entries with the keys of real ones -- before and
+    after the real entries, cited or not: both readings must carry every value through and must not see anything inside it"""
+    cases = []
+    cit_lists = [['c'], ['x'], ['c', 'x'], ['*'], ['C', 'p'], []]
+    for r in RICH:
+        layouts = [
+            [_entry('x', None, note=r), _entry('c', None)],
+            [_entry('c', 'p'), _entry('x', None, note=r), _entry('p', None)],
+            [_entry('x', 'c', note=r), _entry('c', None)],
+            [_entry('c', None), _entry('x', None, note=r)],
+            [_entry('x', None, note=r), _entry('c', 'P', note=r), _entry('p', None, note=r)],
+        ]
+        for file in layouts:
+            for cits in cit_lists:
+                for m in ((1, 2) if tier == 'thorough' else (1,)):
+                    cases.append({'op': 'resolve', 'file': file, 'citations': cits, 'min_crossrefs': m})
+    return cases
+
+
+def _two_files(tier):
+    """the entries spread over several .bib files read by ONE reader / one engine run (parse_files, command_read): all files of
+    two entries cut in two (thorough: also files of three entries cut in two and three), every crossref assignment"""
+    cases = []
+    cit_lists = list(_cit_lists(['a', 'B', 'c', 'A', '*'], 2))
+    for n, cutss in ((2, [[1]]),) + (((3, [[1], [1, 2], [0, 3]]),) if tier == 'thorough' else ((3, [[1, 2]]),)):
+        keys = KEYS[:n]
+        targets = [None] + keys + [OTHER[k] for k in keys] + ['zz']
+        for xs in itertools.product(targets, repeat=n):
+            if n == 3 and tier != 'thorough' and sum(x is not None for x in xs) < 2:
+                continue
+            file = [_entry(k, x) for k, x in zip(keys, xs)]
+            for cits in cit_lists:
+                if n == 3 and len(cits) != 1:
+                    continue
+                for cuts in cutss:
+                    for m in (1, 2):
+                        cases.append({'op': 'resolve', 'file': file, 'citations': cits, 'min_crossrefs': m, 'split': cuts})
+    return cases
+
+
+def _parents_of_parents(tier):
+    """an appended parent with a cross-reference of its own -- dangling, to an entry before it, after it, to itself, to its
+    child -- and duplicates of an uncited parent around its child: every order of the entries child c, parent p, grandparent g
+    (and a second entry P for the parent), children cited only"""
+    cases = []
+    for ptarget in (None, 'g', 'G', 'zz', 'p', 'c'):
+        for gtarget in (None, 'zz', 'c'):
+            base = [_entry('c', 'p'), _entry('p', ptarget), _entry('g', gtarget)]
+            extra = [None, _entry('P', ptarget, note='second'), _entry('d', 'P')]
+            for ex in extra:
+                entries = base + ([ex] if ex else [])
+                for perm in itertools.permutations(entries):
+                    for cits in (['c'], ['c', 'd'], ['C', 'g']):
+                        if 'd' in cits and (ex is None or ex['key'] != 'd'):
+                            continue
+                        for m in (1, 2):
+                            if tier == 'quick' and m == 2 and 'd' not in cits:
+                                continue
+                            cases.append({'op': 'resolve', 'file': list(perm), 'citations': cits, 'min_crossrefs': m})
+    return cases
+
+
+def _odd(tier):
+    """the key `*`, cross-references to `*` and to the empty key, min_crossrefs <= 0"""
+    cases = []
+    cit_lists = list(_cit_lists(['a', 'A', '*'], 2))
+    targets = [None, '', '*', 'a', 'A']
+    for keys in (['a'], ['*'], ['a', '*'], ['*', 'a']):
+        for xs in itertools.product(targets, repeat=len(keys)):
+            file = [_entry(k, x, note='n' + str(i)) for i, (k, x) in enumerate(zip(keys, xs))]
+            for cits in cit_lists:
+                for m in (0, 1, 2):
+                    cases.append({'op': 'resolve', 'file': file, 'citations': cits, 'min_crossrefs': m})
+    return cases
+
+
 def _variant(rng, k):
     r = rng.random()
     if r < 0.6:
@@ -358,13 +647,32 @@ def _variant(rng, k):
     return k.upper() if rng.random() < 0.5 else k.lower()
 
 
+def _rich(rng, keys):
+    """a random value out of pieces that look like .bib syntax (braces balanced, white space normalised)"""
+    pieces = ['@', '"', '=', '#', '(', ')', ',', 'a@b.c', 'and', 'see', 'x']
+    out = []
+    for _ in range(rng.randint(1, 5)):
+        r = rng.random()
+        if r < 0.25 and keys:
+            out.append('@misc{%s, note={F%d}}' % (_variant(rng, rng.choice(keys)), rng.randint(0, 9)))
+        elif r < 0.35 and keys:
+            out.append('@misc(%s, crossref = "%s")' % (rng.choice(keys), rng.choice(keys)))
+        elif r < 0.5:
+            out.append('{%s}' % rng.choice(pieces))
+        else:
+            out.append(rng.choice(pieces))
+    v = ' '.join(out)
+    return v if len(v) <= 60 else v[:v.rfind(' ', 0, 40)] if ' ' in v[:40] and dbcommon.balanced(v[:v.rfind(' ', 0, 40)]) else '@'
+
+
 def _random_case(rng):
     n = rng.randint(0, 8)
     keys = rng.sample(POOL, min(n, len(POOL)))
-    if keys and rng.random() < 0.25:  # a duplicate, maybe in another case
+    if keys and rng.random() < 0.35:  # a duplicate, maybe in another case
         keys.insert(rng.randint(0, len(keys)), _variant(rng, rng.choice(keys)))
+    rich = rng.random() < 0.3
     file = []
-    for k in keys:
+    for i, k in enumerate(keys):
         r = rng.random()
         if r < 0.35 or not keys:
             x = None
@@ -372,7 +680,8 @@ def _random_case(rng):
             x = _variant(rng, rng.choice(keys))
         else:
             x = 'nowhere'
-        file.append(_entry(k, x, rng.choice(['crossref', 'crossref', 'Crossref', 'CROSSREF'])))
+        note = _rich(rng, keys) if rich and rng.random() < 0.5 else 'v%d' % i
+        file.append(_entry(k, x, rng.choice(['crossref', 'crossref', 'Crossref', 'CROSSREF']), note=note))
     cits = []
     for _ in range(rng.randint(0, 7)):
         r = rng.random()
@@ -382,22 +691,29 @@ def _random_case(rng):
             cits.append('*')
         else:
             cits.append(rng.choice(['unknown', 'Unknown', 'q']))
-    return {'op': 'resolve', 'file': file, 'citations': cits, 'min_crossrefs': rng.choice([1, 1, 2, 2, 3, 0, -1, 4])}
+    case = {'op': 'resolve', 'file': file, 'citations': cits, 'min_crossrefs': rng.choice([1, 1, 2, 2, 3, 0, -1, 4])}
+    if len(file) >= 2 and rng.random() < 0.25:
+        case['split'] = sorted(rng.sample(range(0, len(file) + 1), rng.randint(1, min(3, len(file)))))
+    return case
 
 
 def gen_cases(tier, rng, info):
     nmax = 2 if tier == 'quick' else 3
     cases = _exhaustive(nmax)
     n_ex = len(cases)
-    dup = _duplicates(tier)
-    cases += dup
-    comp = _competing(tier)
-    cases += comp
+    fams = [('duplicate-key files', _duplicates(tier)),
+            ('competing uncited parents (children of 2-3 parents cited in every order, min_crossrefs 2..3)', _competing(tier)),
+            ('values that look like .bib syntax (@, quotes, braces, whole fake entries) in cited and uncited entries', _rich_values(tier)),
+            ('the entries spread over two or three files read by one reader', _two_files(tier)),
+            ('every order of child / parent / grandparent (+ a duplicate of the parent or a second child), children cited', _parents_of_parents(tier)),
+            ('key *, cross-references to * and to the empty key, min_crossrefs 0..2', _odd(tier))]
+    for _name, fam in fams:
+        cases += fam
     info['exhaustive'] = True
     info['scope'] = ('every file of <=%d entries over keys %r x crossref in {none, each key, each key in the other case, zz} x every citation '
-                     'list of length <=3 over [a, B, c, A, q, *] x min_crossrefs 1..3: %d cases; duplicate-key files: %d cases; '
-                     'competing uncited parents (children of 2-3 parents cited in every order, min_crossrefs 2..3): %d cases; '
-                     'each case observed unfiltered, filtered and through both engines' % (nmax, KEYS[:nmax], n_ex, len(dup), len(comp)))
+                     'list of length <=3 over [a, B, c, A, q, *] x min_crossrefs 1..3: %d cases; %s; each case observed unfiltered, filtered '
+                     '(keys, stored entries, reports; add_extra_citations asked twice) and through both engines (keys, notes, reports)' % (
+                         nmax, KEYS[:nmax], n_ex, '; '.join('%s: %d cases' % (name, len(fam)) for name, fam in fams)))
     nrand = 3000 if tier == 'quick' else 60000
     for _ in range(nrand):
         cases.append(_random_case(rng))
@@ -412,7 +728,9 @@ LEVEL_TEXT = ('Machine-checked proofs (Lean 4) over an executable model of Bibli
               'min_crossrefs in both reading modes and through both engines, and sampled beyond.')
 LEVEL_NOTE = ('Trusted: Lean kernel; axioms propext/Classical.choice/Quot.sound only; the hand-written models correspond to the Python '
               'code only as far as the differential check explores; str.lower is ASCII in the model; problems are observed in capture '
-              'mode.  The model follows the code with proposed_fixes/C05-1 applied (Python engine reports a missing cited key). '
-              'Filtered reading equals unfiltered reading only under the ordering proviso (parent cited, or after a cited child): '
-              'C05_filtered_eq_unfiltered_partial + C05_filtered_neg; the remaining input class is known finding '
-              'C05-filtered-parent-before-child.')
+              'mode.  The model follows the code with proposed_fixes/C05-1 (Python engine reports a missing cited key) and C05-2 '
+              '(dangling cross-reference of an appended parent is reported) applied.  Filtered reading equals unfiltered reading only '
+              'under ordering provisos: same keys when every uncited parent follows a cited child (C05_filtered_eq_unfiltered_partial + '
+              'C05_filtered_neg; finding C05-filtered-parent-before-child), same entries and reports when moreover the FIRST entry of '
+              'such a parent follows the child and its own parent follows it (C05_filtered_entries_partial + C05_filtered_entries_neg; '
+              'findings C05-filtered-duplicate-parent, C05-filtered-grandparent-before-parent).')
